@@ -63,9 +63,22 @@ type Contract struct {
 	Asserts  map[string][]Clause // "at <label>" assertions
 	Lemmas   []string            // axioms names to use (empty = all)
 	Mutates  []string            // abstract-valued parameters (usually the receiver) updated in place
+	Iter     *IterSpec           // the callee calls a callback over a ghost sequence
 	Assumed  bool                // extern (trusted) contract
 	File     string
 	Line     int
+}
+
+// IterSpec: `iterates <param> seq <S> args <a1>, <a2> ...` — the callee invokes <param>(a1, a2, ...) for it = S[0], S[1], ...
+// (index k), stopping after the first invocation that returns false.
+type IterSpec struct {
+	Param string
+	Seq   Clause
+	Args  []Clause
+	When  *Clause // only elements satisfying this are passed to the callback (others are skipped)
+	Pos   *Clause // callee side: expression (over the function's locals) giving the index in S of the element being passed
+	Guard *Clause // the iteration contract holds only when this condition on the parameters holds (else only `Only`)
+	Only  *Clause // `invokes <param> only <cond on it>`: every invocation's first argument satisfies cond (always)
 }
 
 type GhostVar struct {
@@ -567,6 +580,72 @@ func (sp *Specs) loadSpecFile(path, pkgPrefix string, assumed bool) error {
 			}
 			sp.Abstract[f[0]] = so
 			cur = nil
+		case "iterates":
+			if cur == nil {
+				return fmt.Errorf("%s:%d: clause outside func", path, l.ln)
+			}
+			i1 := strings.Index(rest, " seq ")
+			i2 := strings.Index(rest, " args ")
+			if i1 < 0 || i2 < i1 {
+				return fmt.Errorf("%s:%d: iterates PARAM seq S args A1, A2", path, l.ln)
+			}
+			it := &IterSpec{Param: strings.TrimSpace(rest[:i1])}
+			cl, err := mkClause(strings.TrimSpace(rest[i1+5:i2]), l.ln)
+			if err != nil {
+				return err
+			}
+			it.Seq = cl
+			if i5 := strings.Index(rest, " if "); i5 > i2 {
+				gc, err := mkClause(strings.TrimSpace(rest[i5+4:]), l.ln)
+				if err != nil {
+					return err
+				}
+				it.Guard = &gc
+				rest = rest[:i5]
+			}
+			if i3 := strings.Index(rest, " position "); i3 > i2 {
+				pc, err := mkClause(strings.TrimSpace(rest[i3+10:]), l.ln)
+				if err != nil {
+					return err
+				}
+				it.Pos = &pc
+				rest = rest[:i3]
+			}
+			if i4 := strings.Index(rest, " when "); i4 > i2 {
+				wc, err := mkClause(strings.TrimSpace(rest[i4+6:]), l.ln)
+				if err != nil {
+					return err
+				}
+				it.When = &wc
+				rest = rest[:i4]
+			}
+			for _, a := range splitTop(rest[i2+6:], ',') {
+				cl, err := mkClause(strings.TrimSpace(a), l.ln)
+				if err != nil {
+					return err
+				}
+				it.Args = append(it.Args, cl)
+			}
+			if cur.Iter != nil && cur.Iter.Only != nil {
+				it.Only = cur.Iter.Only
+			}
+			cur.Iter = it
+		case "invokes":
+			if cur == nil {
+				return fmt.Errorf("%s:%d: clause outside func", path, l.ln)
+			}
+			io := strings.Index(rest, " only ")
+			if io < 0 {
+				return fmt.Errorf("%s:%d: invokes PARAM only COND", path, l.ln)
+			}
+			oc, err := mkClause(strings.TrimSpace(rest[io+6:]), l.ln)
+			if err != nil {
+				return err
+			}
+			if cur.Iter == nil {
+				cur.Iter = &IterSpec{Param: strings.TrimSpace(rest[:io])}
+			}
+			cur.Iter.Only = &oc
 		case "mutates":
 			if cur == nil {
 				return fmt.Errorf("%s:%d: clause outside func", path, l.ln)
